@@ -740,3 +740,43 @@ def escalation_risk_lemmas(S, I, variant):
                 band(bimp(proved1, proved2), bimp(xcmp("<=", p1, rl), xcmp("<=", p2, rl))))
     else:
         S.undecided("measured risk does not increase")
+
+
+@script(["C10", "C17"], "CVR.prep_comparison_sample+prep_polling_sample/post (bounded: n cards; symbolic selection orders, any initial orders)",
+        variants=(("n2",), ("n3",)))
+def prep_samples_post(S, I, variant):
+    """both of the caller's lists end up in selection order (in place), manual record i paired with CVR i"""
+    n = int(variant[0][1:])
+    c = ctx()
+    CVRc = I.get(MOD, "CVR")
+    ids = [f"card{i}" for i in range(n)]
+    sel = [S.integer(f"selection_order_{i}") for i in range(n)]
+    for a, b in itertools.combinations(range(n), 2):
+        c.assume(icmp("!=", sel[a], sel[b]))
+    so = {ids[i]: {"selection_order": sel[i], "serial": i + 1} for i in range(n)}
+    perm_m = S.choose("mvr_order", [list(p) for p in itertools.permutations(range(n))])
+    perm_c = S.choose("cvr_order", [list(p) for p in itertools.permutations(range(n))])
+    mk = lambda i, tag: Obj(CVRc, {"id": ids[i], "votes": {}, "phantom": False, "pool": False, "tally_pool": None, "sample_num": None,
+                                   "p": None, "sampled": False, "card_in_batch": None, "tag": tag})
+    mv = [mk(i, "mvr") for i in perm_m]
+    cv = [mk(i, "cvr") for i in perm_c]
+    mv0, cv0 = mv, cv
+    _, exc = guard(S, I, lambda: I.call(I.get(MOD, "CVR.prep_comparison_sample"), [mv, cv, so], {}))
+    if exc:
+        return
+    # expected order decided on the spec side
+    order = []
+    for i in range(n):
+        pos = len(order)
+        while pos > 0 and c.decide(icmp("<", sel[i], sel[order[pos - 1]])):
+            pos -= 1
+        order.insert(pos, i)
+    want = [ids[i] for i in order]
+    S.holds("both of the caller's lists are in selection order, paired by identifier",
+            [x.attrs["id"] for x in mv0] == want and [x.attrs["id"] for x in cv0] == want)
+    pm = [mk(i, "mvr") for i in perm_m]
+    pm0 = pm
+    _, exc = guard(S, I, lambda: I.call(I.get(MOD, "CVR.prep_polling_sample"), [pm, so], {}))
+    if exc:
+        return
+    S.holds("prep_polling_sample: the caller's list is in selection order", [x.attrs["id"] for x in pm0] == want)
